@@ -275,6 +275,12 @@ func calcProofDataOffset(typeName MapType) (offset, step int, err error) {
 	return
 }
 
+// matches reports whether the loaded header belongs to the given pubKey and bitLength
+func (hm *HashMap) matches(pubKey *pocec.PublicKey, bitLength int) bool {
+	return hm.bl == bitLength && hm.pk != nil && pubKey != nil &&
+		bytes.Equal(hm.pk.SerializeCompressed(), pubKey.SerializeCompressed())
+}
+
 func (hm *HashMap) Close() error {
 	return hm.data.Close()
 }
